@@ -237,6 +237,36 @@ func ruleCancelExactID(c *chk.Ctx) {
 					vals = append(vals, e)
 				}
 			}
+			// (a private accessor that hands the entry back: what its callers do with it)
+			for i := 0; i < len(vals) && i < 8; i++ {
+				for _, r := range *vals[i].Referrers() {
+					ret, isRet := r.(*ssa.Return)
+					if !isRet || ir.Exported(f) || c.P.UsedAsValue(f) {
+						continue
+					}
+					ri := -1
+					for k, rv := range ret.Results {
+						if rv == vals[i] {
+							ri = k
+						}
+					}
+					for _, site := range c.P.Callers(f) {
+						call, isCall := site.Instr.(*ssa.Call)
+						if !isCall || ri < 0 {
+							continue
+						}
+						if len(ret.Results) == 1 {
+							vals = append(vals, call)
+							continue
+						}
+						for _, cr := range *call.Referrers() {
+							if e, isE := cr.(*ssa.Extract); isE && e.Index == ri {
+								vals = append(vals, e)
+							}
+						}
+					}
+				}
+			}
 			for _, v := range vals {
 				for _, r := range *v.Referrers() {
 					if ci, ok := r.(ssa.CallInstruction); ok && ci.Common().Value == v {
@@ -898,6 +928,10 @@ func ruleParseRequestsNormalisesID(c *chk.Ctx) {
 				good = true
 			}
 		}
+		// (or the composition as one function: "" for null, the id's text otherwise)
+		if call, isCall := st.Val.(*ssa.Call); isCall && isNullStringNormaliser(c, call.Call.StaticCallee()) && chk.LoadsField(call.Call.Args[0], c.M.JID) {
+			good = true
+		}
 		if !good {
 			ok = false
 		}
@@ -1166,7 +1200,25 @@ func typeGlobalRole(c *chk.Ctx, g *ssa.Global) string {
 			return
 		}
 		elem, ok := st.Val.(*ssa.Call)
-		if !ok || !elem.Call.IsInvoke() || elem.Call.Method.Name() != "Elem" {
+		if !ok {
+			return
+		}
+		name := func(ts string) {
+			switch {
+			case ts == "error":
+				role = "errType"
+			case ts == "context.Context":
+				role = "ctxType"
+			case strings.Contains(ts, "DisallowUnknownFields"):
+				role = "strictType"
+			}
+		}
+		// (reflect.TypeFor[T]() is the same descriptor)
+		if callee := elem.Call.StaticCallee(); callee != nil && callee.Origin() != nil && callee.Origin().String() == "reflect.TypeFor" && len(callee.TypeArgs()) == 1 {
+			name(types.TypeString(callee.TypeArgs()[0], nil))
+			return
+		}
+		if !elem.Call.IsInvoke() || elem.Call.Method.Name() != "Elem" {
 			return
 		}
 		tof, ok := elem.Call.Value.(*ssa.Call)
@@ -1181,14 +1233,7 @@ func typeGlobalRole(c *chk.Ctx, g *ssa.Global) string {
 		if !ok {
 			return
 		}
-		switch ts := types.TypeString(pt.Elem(), nil); {
-		case ts == "error":
-			role = "errType"
-		case ts == "context.Context":
-			role = "ctxType"
-		case strings.Contains(ts, "DisallowUnknownFields"):
-			role = "strictType"
-		}
+		name(types.TypeString(pt.Elem(), nil))
 	})
 	if role == "" {
 		return g.Name()
@@ -1491,6 +1536,89 @@ func ruleIsErrClosingTable(c *chk.Ctx) {
 			}
 		})
 	}
+	// or a loop over a local table of the sentinels: `for _, e := range [...]error{ErrClosed,
+	// net.ErrClosed} { if errors.Is(err, e) { return true } }; return false`
+	tableForm := false
+	{
+		var tab *ssa.Alloc
+		var isCall *ssa.Call
+		ir.Instrs(f, func(ins ssa.Instruction) {
+			call, ok := ins.(*ssa.Call)
+			if !ok || !ir.IsCallTo(&call.Call, "errors.Is") || len(call.Call.Args) != 2 || c.P.Canon(call.Call.Args[0]) != ssa.Value(f.Params[0]) {
+				return
+			}
+			var base ssa.Value
+			if u, isU := call.Call.Args[1].(*ssa.UnOp); isU && u.Op == token.MUL {
+				if ia, isIA := u.X.(*ssa.IndexAddr); isIA {
+					base = ia.X
+				}
+			}
+			if ix, isIx := call.Call.Args[1].(*ssa.Index); isIx {
+				// (ranging over an array value: the array was loaded from its local first)
+				if u, isU := ix.X.(*ssa.UnOp); isU && u.Op == token.MUL {
+					base = u.X
+				}
+			}
+			if al, isAl := base.(*ssa.Alloc); isAl {
+				if at, isArr := al.Type().(*types.Pointer).Elem().Underlying().(*types.Array); isArr && at.Elem().String() == "error" {
+					tab, isCall = al, call
+				}
+			}
+		})
+		if tab != nil {
+			found := map[string]bool{}
+			okStores := true
+			for _, ref := range *tab.Referrers() {
+				ia, isIA := ref.(*ssa.IndexAddr)
+				if !isIA {
+					continue
+				}
+				for _, r2 := range *ia.Referrers() {
+					st, isSt := r2.(*ssa.Store)
+					if !isSt {
+						continue
+					}
+					gl := globalLoad(st.Val)
+					if gl == nil {
+						okStores = false
+						continue
+					}
+					name := gl.Name()
+					if gl.Pkg != nil && gl.Pkg.Pkg.Path() == "net" {
+						name = "net." + name
+					}
+					found[name] = true
+				}
+			}
+			// every `return true` is on the true edge of that errors.Is; every other return is false
+			okRets := true
+			for _, r := range ir.Returns(f) {
+				k, isK := ir.ReturnResult(r, 0).(*ssa.Const)
+				if !isK || k.Value == nil {
+					okRets = false
+					continue
+				}
+				if k.Value.String() != "true" {
+					continue
+				}
+				onIs := false
+				for _, cd := range ir.CondsAt(r.Block()) {
+					if cd.V == ssa.Value(isCall) && cd.Truth {
+						onIs = true
+					}
+				}
+				if !onIs {
+					okRets = false
+				}
+			}
+			if okStores && okRets && len(found) == 2 && found["ErrClosed"] && found["net.ErrClosed"] && ir.InCycle(isCall.Block()) {
+				tableForm = true
+				for k := range want {
+					want[k] = true
+				}
+			}
+		}
+	}
 	var missing []string
 	for k, ok := range want {
 		if !ok {
@@ -1516,7 +1644,9 @@ func ruleIsErrClosingTable(c *chk.Ctx) {
 		}
 		return "", false, false
 	}
-	if len(missing) == 0 && identity == "" {
+	if tableForm && identity == "" {
+		c.Pass("TABLE.closing", f, "decision table", f.Pos(), "true exactly where errors.Is matches an entry of the constant table {ErrClosed, net.ErrClosed}, false otherwise")
+	} else if len(missing) == 0 && identity == "" {
 		bad := ""
 		for _, nn := range []bool{false, true} {
 			for _, a := range []bool{false, true} {
@@ -1549,7 +1679,32 @@ func ruleRequestPredicateTable(c *chk.Ctx) {
 			continue
 		}
 		n++
-		atomOf := func(v ssa.Value) (string, bool, bool) {
+		atomOf := msgFieldAtom(c)
+		bad := ""
+		for _, m := range []bool{false, true} {
+			for _, e := range []bool{false, true} {
+				for _, r := range []bool{false, true} {
+					got, ok := c.P.EvalBool(f, atomOf, map[string]bool{"M": m, "E": e, "R": r})
+					if !ok {
+						bad = "the decision involves something other than emptiness of the method and presence of the error/result members"
+					} else if got != (m && !e && !r) {
+						bad = fmt.Sprintf("for method≠\"\"=%v, error present=%v, result present=%v the result is %v", m, e, r, got)
+					}
+				}
+			}
+		}
+		c.Check(bad == "", "TABLE.request", f, "request ⇔ method ≠ \"\" ∧ no error ∧ no result", f.Pos(), "the predicate's decision table is exactly that", "the request/notification predicate is not exactly 'method non-empty, no error, no result': "+bad+" — some method-name strings would be treated as replies and never dispatched")
+	}
+	if n == 0 {
+		c.Undecided("TABLE.request", nil, "request predicate", 0, "no jmessage predicate reading method, error and result found")
+	}
+}
+
+// msgFieldAtom: the atoms of the message predicates: M (method empty), E and R
+// (error / result member absent), each possibly negated.
+func msgFieldAtom(c *chk.Ctx) func(v ssa.Value) (string, bool, bool) {
+	return func(v ssa.Value) (string, bool, bool) {
+		{
 			cd := ir.Cond{V: v, Truth: true}
 			if s, ok := ir.NonEmptyLen(cd); ok && chk.LoadsField(s, c.M.JM) {
 				return "M", false, true
@@ -1574,23 +1729,6 @@ func ruleRequestPredicateTable(c *chk.Ctx) {
 			}
 			return "", false, false
 		}
-		bad := ""
-		for _, m := range []bool{false, true} {
-			for _, e := range []bool{false, true} {
-				for _, r := range []bool{false, true} {
-					got, ok := c.P.EvalBool(f, atomOf, map[string]bool{"M": m, "E": e, "R": r})
-					if !ok {
-						bad = "the decision involves something other than emptiness of the method and presence of the error/result members"
-					} else if got != (m && !e && !r) {
-						bad = fmt.Sprintf("for method≠\"\"=%v, error present=%v, result present=%v the result is %v", m, e, r, got)
-					}
-				}
-			}
-		}
-		c.Check(bad == "", "TABLE.request", f, "request ⇔ method ≠ \"\" ∧ no error ∧ no result", f.Pos(), "the predicate's decision table is exactly that", "the request/notification predicate is not exactly 'method non-empty, no error, no result': "+bad+" — some method-name strings would be treated as replies and never dispatched")
-	}
-	if n == 0 {
-		c.Undecided("TABLE.request", nil, "request predicate", 0, "no jmessage predicate reading method, error and result found")
 	}
 }
 
@@ -2206,4 +2344,51 @@ func ruleHandedOffChannelNotClosed(c *chk.Ctx) {
 	if n == 0 {
 		c.Undecided("WHO.close", nil, "hand-off sites", 0, "no Start/NewClient hand-off found in the server and jhttp packages")
 	}
+}
+
+// isNullStringNormaliser: g maps an id to its key text: the empty string on the
+// true edge of a boolean predicate of the id (the null test), the id's own
+// text — string(id), possibly of the null-normalised id — on the other edge.
+func isNullStringNormaliser(c *chk.Ctx, g *ssa.Function) bool {
+	if g == nil || !c.P.InRepo[g] || ir.Exported(g) || len(g.Params) != 1 || g.Signature.Results().Len() != 1 || g.Signature.Results().At(0).Type().String() != "string" {
+		return false
+	}
+	prm := g.Params[0]
+	predOn := func(cs []ir.Cond, truth bool) bool {
+		for _, cd := range cs {
+			call, ok := cd.V.(*ssa.Call)
+			if !ok || cd.Truth != truth || len(call.Call.Args) != 1 || ir.NormCell(call.Call.Args[0]) != ssa.Value(prm) {
+				continue
+			}
+			if h := call.Call.StaticCallee(); h != nil && c.P.InRepo[h] && h.Signature.Results().Len() == 1 && h.Signature.Results().At(0).Type().String() == "bool" {
+				return true
+			}
+		}
+		return false
+	}
+	empty, text := false, false
+	for _, r := range ir.Returns(g) {
+		v := ir.ReturnResult(r, 0)
+		if k, isK := constString(v); isK {
+			if k != "" || !predOn(ir.CondsAt(r.Block()), true) {
+				return false
+			}
+			empty = true
+			continue
+		}
+		cv, isCv := v.(*ssa.Convert)
+		if !isCv {
+			return false
+		}
+		src := ir.NormCell(cv.X)
+		if call, isCall := src.(*ssa.Call); isCall && isNullNormaliser(c, call.Call.StaticCallee()) && ir.NormCell(call.Call.Args[0]) == ssa.Value(prm) {
+			text = true
+			continue
+		}
+		if src != ssa.Value(prm) || !predOn(ir.CondsAt(r.Block()), false) {
+			return false
+		}
+		text = true
+	}
+	return empty && text
 }
